@@ -1,6 +1,9 @@
 """C06 child: judge a list of (case, reps) in THIS process' OpenMP environment (OMP_THREAD_LIMIT, OMP_DYNAMIC, ...).
 
 usage: c06_child.py cases.json out.json        (VERIF_REPO / scratch come from the parent's environment)
+       c06_child.py threads job.json out.json  re-entrancy: job = {"threads": [[case, reps, S], ...], "plans": [...],
+                                               "rounds": r, "pinned_rounds": r}: the plans of ScoreRefineCalls.tla are run
+                                               from len(threads) Python threads (props.c06.run_plans)
 The expectations are those of the parent (props.c06.judge: exact values from the specification's terminal states).
 """
 import sys, os, json
@@ -8,7 +11,20 @@ sys.path.insert(0, os.path.dirname(os.path.abspath(__file__)))
 import common
 
 
+def threads_main():
+    job = json.load(open(sys.argv[2]))
+    shadow = common.build_shadow("normal")
+    common.use_shadow(shadow)
+    from props import c06
+    rt = c06.Routes()
+    preps = [c06.Prepared(case, reps, t, S) for t, (case, reps, S) in enumerate(job["threads"])]
+    res = c06.run_plans(rt.c, preps, job["plans"], job["rounds"], job["pinned_rounds"])
+    json.dump({"results": res, "info": {"peaks": [len(p.gv) for p in preps]}}, open(sys.argv[3], "w"))
+
+
 def main():
+    if sys.argv[1] == "threads":
+        return threads_main()
     cases = json.load(open(sys.argv[1]))
     shadow = common.build_shadow("normal")
     common.use_shadow(shadow)
